@@ -646,6 +646,8 @@ class Interp:
         if isinstance(it, PyTuple):
             return list(it.items)
         if isinstance(it, (set, frozenset)):
+            if any(isinstance(x, tuple) and len(x) == 2 and x[0] == "allof" for x in it):
+                return None          # holds all elements of a symbolic collection: not a known sequence
             return sorted(it, key=repr)
         if isinstance(it, dict):
             # (a tuple key is stored as its term: it iterates as the tuple again)
